@@ -133,6 +133,43 @@ pub fn run_c07(ctx: &mut Ctx) {
     };
     let boundary = [0u16, 1, 2, 0x00ff, 0x0100, 0x7fff, 0x8000, 0xff00, 0xfffe, 0xffff];
     let mut idx = 0u64;
+    // bare messages: every code byte (0.00 "ping" included) with no options and no payload, and the
+    // same with exactly one of token / option / payload present
+    for typ in 0..4u8 {
+        for ver in [1u8, 0, 3] {
+            for code in 0..=255u8 {
+                for shape in 0..5u8 {
+                    idx += 1;
+                    if idx % nshards != shard {
+                        continue;
+                    }
+                    rep.eval();
+                    let mut req = Packet::new();
+                    req.header.set_version(ver);
+                    req.header.set_type(mtype(typ));
+                    req.header.message_id = boundary[(idx as usize / 7) % boundary.len()] ^ (code as u16);
+                    req.header.code = MessageClass::from(code);
+                    match shape {
+                        1 => req.set_token(vec![0]),
+                        2 => req.add_option(CoapOption::UriPath, vec![]),
+                        3 => req.payload = vec![0],
+                        4 => req.set_token(vec![0xff; 8]),
+                        _ => {}
+                    }
+                    let res = guard(|| (CoapResponse::new(&req), CoapRequest::from_packet(req.clone(), 5u32)));
+                    match res {
+                        Err(p) => rep.violation(&p.sig(), p.text(), packet_to_msg(&req).describe()),
+                        Ok((a, rq)) => {
+                            if check_response(rep, &req, &a, "CoapResponse::new (bare message)") && check_response(rep, &req, &rq.response, "CoapRequest::from_packet (bare message)") {
+                                rep.count("bare_messages_checked");
+                                rep.distinct(0xBA_0000_0000 | (typ as u64) << 16 | (code as u64) << 8 | shape as u64);
+                            }
+                        }
+                    }
+                }
+            }
+        }
+    }
     for typ in 0..4u8 {
         for ver in 0..4u8 {
             for tkl in 0..=8usize {
